@@ -85,6 +85,7 @@ theorem parseHeaderLine_render (k v : Bytes) (hk : ∀ c ∈ k, c ≠ 58) :
       rw [ih (fun c' h' => hk c' (List.mem_cons_of_mem _ h'))]
   unfold parseHeaderLine
   rw [h1, h2]
+  rfl
 
 /-- the rendering of header pairs -/
 def renderPairs (ps : List (Bytes × Bytes)) : Bytes := (ps.map fun p => headerLine p.1 p.2).flatten
